@@ -4,13 +4,17 @@ i = s.index('### 12.5 Which check catches which seeded change')
 table = open('/tmp/seedtable.md').read()
 new = '''### 12.5 Which check catches which seeded change
 
-200 changes were written by sub-agents that saw only the text of one property and their own scratch worktree: two per property in each of five rounds
-(A, B; C, D; E, F; G, H; I, J). From the second round on the agents were additionally told one line about each earlier change for their property so as not to repeat it; in the fourth round the two
+240 changes were written by sub-agents that saw only the text of one property and their own scratch worktree: two per property in each of six rounds
+(A, B; C, D; E, F; G, H; I, J; K, L). From the second round on the agents were additionally told one line about each earlier change for their property so as not to repeat it; in the fourth round the two
 changes had prescribed styles: G a concurrency or resource-lifetime slip (a lock moved, a goroutine added, pooling or caching, a timer, a finalizer, a deferred clean-up in the wrong place),
 H a slip in glue or wiring (the main program's flags and the way it builds its components, a constructor's defaults, a small helper, a library option, an error translated on its way up).
 In the fifth round: I a slip on an error path or at a boundary (something failing half-way, the first / last / empty / maximal element, two things ending at the same moment),
 J a well-meant hardening, limit or normalisation that bites legitimate use (a timeout, a size cap, stricter validation, rate limiting, trimming, de-duplication).
-The checks as they stood missed about a third of the changes of the early rounds at first sight (11 of 38 in round three) and about half of rounds four and five (22 of 42, 21 of 40): prescribing a *style* the checks had not met yet is what kept finding blind spots. Every miss led to the strengthening listed below; with the machinery as committed every one of the 200 is reported.
+In the sixth round: K a slip that rests on a Go language or standard-library pitfall (shadowing with `:=`, slice aliasing, `copy`'s contract, a typed nil in an interface, `defer` in a loop, `http.Error` without `return`, `TrimLeft`'s cutset, integer overflow of the exit status),
+L a small feature addition (a flag, an option, an endpoint, an exported function) that is off by default.
+The checks as they stood missed about a third of the changes of the early rounds at first sight (11 of 38 in round three) and about half of rounds four and five (22 of 42, 21 of 40): prescribing a *style* the checks had not met yet is what kept finding blind spots. Every miss led to the strengthening listed below; with the machinery as committed every one of the 240 is reported except six of the sixth round's feature additions (C02-L `-takeover`, C03-L `-max-output-chunk`, C05-L an environment variable switching on per-SNI certificates,
+C14-L `ConnectTimeout`, C16-L `-strip-comments`, C19-L `-line-buffer`): each breaks its property only when the new option is switched on, and a check built for the pinned interface has no way of knowing that an option exists, let alone what a legitimate use of it is.
+The other fourteen feature additions of that round break something with the feature *unused* and are caught. Sixth round at first sight: 19 of 40 missed or answered with a broken check (exit 2) instead of a verdict.
 Each change was confirmed here
 (`tools/seedconfirm.sh`: builds, whole existing suite passes, the agent's demonstration fails with the change and passes without) and kept under
 `seeded/<id>/` (`patch.diff`, demonstration, `NOTES.agent.md`, `confirm.log`, `check.out`, `meta.json`). The checks were run against each with
@@ -106,6 +110,24 @@ What each missed (or nearly missed) change led to:
 | C17-J (files read through a 1 MiB `LimitReader`) | missed | eligible files of 1-3 MiB, in a directory and as single-file sources |
 | C19-J (muting capped at 20 s) | missed | two fixed long floods (23 s at 1.9 s gaps; 3 s at 0.1 s gaps and on) run through the same oracle as the enumeration |
 | C20-J (terminal restored only if standard input is a terminal) | missed | controlling terminal present, standard input `/dev/null` |
+| C02-K (`http.Error` without `return` for a non-GET `/i/{id}`) | missed | the input stream also requested with POST and PUT in C02's HTTP seam |
+| C03-K (`err :=` shadowed in `handleOutput`: a failed terminal write no longer stops it) | missed | the choked terminal is sent three more chunks while it is being read out: no hole |
+| C04-K (`err :=` shadowed in `proxyOut`'s reader: it spins after the stream ended) | exit 2 ("world does not settle") | a world that never comes to rest ends the worker process; twice on one history = `program-crashed/...` with the stacks |
+| C04-L (a second event listener that is only drained when a new flag is set) | exit 2 (tooling: the patch adds a file) / missed | **1 100 shells in series** through the real handlers (the callback help stops being re-printed at shell 513) |
+| C05-K (400 answers to `/c` carry a script rendered from zero parameters) | missed | refused `/c` requests: no curl command pinning anything but the listener's key |
+| C06-L (`/io/{id}` endpoint, call check keyed on the token's presence) | missed | `/io/k` as a spelling of `/io` in the gated HTTP seam (`{io/k, o}`, `{i, io/k}`) |
+| C08-K (`os.IsNotExist` on a wrapped error: nested cache directories are no longer created) | exit 2 (the probe run failed) | a failing first start is a violation |
+| C08-L (SANs from the callback addresses; the cache is regenerated when they "differ") | caught by C05 only | three restarts of the server on one intact cache with IPv4 / IPv6 listen addresses and a callback name added on the third |
+| C09-L (`?t=` token compared even when no token is set) | missed | file requests with queries `t=1`, `token=x`, `id=1`, `key=v`, ... |
+| C11-K (`Fprintf(w, line)`) / C11-L (`O_APPEND` lost when a truncate flag was added) | missed | formatter-looking lines among the log payloads; two runs of the real binary on one log file |
+| C12-L (a second event listener in `main` that is only drained when a new flag is set) | missed | 1 100 half-attached attempts before the shell |
+| C13-K (`copy` into a 32-byte array accepts longer fingerprints) | missed | fingerprints that are the pinned hash followed by 1 or 32 more bytes |
+| C15-K (`copy` into a zero-length slice loses the destination's contents) | missed | encode / decode into a destination without spare capacity |
+| C16-K (`SplitN(..., 128)` on the header) | missed | leading comment blocks of 100, 127, 128, 129, 203, 600 lines |
+| C17-K (`defer f.Close()` moved into the loop) / C17-L (sources taken as glob patterns) | missed | 400 eligible files converted in a worker with 64 spare descriptors; source names with glob characters next to siblings a pattern would match |
+| C18-K (compaction and quote-escaping merged into one in-place pass) / C18-L (`strings.Fields` + join) | missed | duplicates that contain a quote in the row-set menu; runs of blanks, NBSP and CR inside TABDOC text |
+| C19-K (mute redesigned around `time.After` in the output loop) | exit 2 (overlay helper read removed fields; scenario needs a timer goroutine) | private state looked up by name; lock scenarios that cannot be set up on a Shell are skipped and counted |
+| C20-L (`opshell.New` grew a parameter; clean-up waits for `Do`) | exit 2 (harness did not build) | the repository's constructors are called through reflection (`harness/rcall`): new parameters get zero values |
 
 **C12-D** moves the registration of the server's event listener into the watcher goroutine, after HTTP is being served; it needs the broker to be busy delivering an earlier event to
 another slow listener at start-up. The in-process scenario `c12BusyBroker` reproduces that set-up; its result for this change is recorded in `seeded/C12-D/check.out` (the agent's own
